@@ -384,6 +384,13 @@ public:
         op("sub", r);
         return r;
     }
+    // the operator spellings of the read-modify-write operations (`a++` is `a.fetch_add(1)` ...)
+    T operator++() noexcept requires std::is_integral_v<T> { return fetch_add(1) + 1; }
+    T operator++(int) noexcept requires std::is_integral_v<T> { return fetch_add(1); }
+    T operator--() noexcept requires std::is_integral_v<T> { return fetch_sub(1) - 1; }
+    T operator--(int) noexcept requires std::is_integral_v<T> { return fetch_sub(1); }
+    T operator+=(T d) noexcept requires std::is_integral_v<T> { return fetch_add(d) + d; }
+    T operator-=(T d) noexcept requires std::is_integral_v<T> { return fetch_sub(d) - d; }
     void wait(T old, std::memory_order = std::memory_order_seq_cst) const noexcept {
         auto &s = vshim::S();
         if (s.skip_obj(this)) {   // untracked: block silently
@@ -421,6 +428,40 @@ private:
     }
     T _v;
 };
+
+// The free-function spellings of <atomic> for the interposed type: `std::atomic_load_explicit(&a, o)` is DEFINED as `a.load(o)`
+// ([atomics.nonmembers]); the std templates take `std::atomic<T> *` (the real one: the std headers are included before the renaming
+// macro), so a header that spells an operation this way needs these overloads to compile against the shim.  They forward to the
+// member functions, hence log and yield exactly like the member spelling.  (`type_identity_t`: the value operand is not deduced,
+// as in the standard: `atomic_store(&p, nullptr)` works.)
+template <typename T> T atomic_load(const verif_atomic<T> *a) noexcept { return a->load(); }
+template <typename T> T atomic_load_explicit(const verif_atomic<T> *a, memory_order o) noexcept { return a->load(o); }
+template <typename T> void atomic_store(verif_atomic<T> *a, type_identity_t<T> v) noexcept { a->store(v); }
+template <typename T> void atomic_store_explicit(verif_atomic<T> *a, type_identity_t<T> v, memory_order o) noexcept { a->store(v, o); }
+template <typename T> T atomic_exchange(verif_atomic<T> *a, type_identity_t<T> v) noexcept { return a->exchange(v); }
+template <typename T> T atomic_exchange_explicit(verif_atomic<T> *a, type_identity_t<T> v, memory_order o) noexcept { return a->exchange(v, o); }
+template <typename T> bool atomic_compare_exchange_weak(verif_atomic<T> *a, type_identity_t<T> *e, type_identity_t<T> d) noexcept {
+    return a->compare_exchange_weak(*e, d);
+}
+template <typename T> bool atomic_compare_exchange_strong(verif_atomic<T> *a, type_identity_t<T> *e, type_identity_t<T> d) noexcept {
+    return a->compare_exchange_strong(*e, d);
+}
+template <typename T> bool atomic_compare_exchange_weak_explicit(verif_atomic<T> *a, type_identity_t<T> *e, type_identity_t<T> d,
+                                                                 memory_order s, memory_order f) noexcept {
+    return a->compare_exchange_weak(*e, d, s, f);
+}
+template <typename T> bool atomic_compare_exchange_strong_explicit(verif_atomic<T> *a, type_identity_t<T> *e, type_identity_t<T> d,
+                                                                   memory_order s, memory_order f) noexcept {
+    return a->compare_exchange_strong(*e, d, s, f);
+}
+template <typename T> T atomic_fetch_add(verif_atomic<T> *a, type_identity_t<T> d) noexcept { return a->fetch_add(d); }
+template <typename T> T atomic_fetch_add_explicit(verif_atomic<T> *a, type_identity_t<T> d, memory_order o) noexcept { return a->fetch_add(d, o); }
+template <typename T> T atomic_fetch_sub(verif_atomic<T> *a, type_identity_t<T> d) noexcept { return a->fetch_sub(d); }
+template <typename T> T atomic_fetch_sub_explicit(verif_atomic<T> *a, type_identity_t<T> d, memory_order o) noexcept { return a->fetch_sub(d, o); }
+template <typename T> void atomic_wait(const verif_atomic<T> *a, type_identity_t<T> old) noexcept { a->wait(old); }
+template <typename T> void atomic_wait_explicit(const verif_atomic<T> *a, type_identity_t<T> old, memory_order o) noexcept { a->wait(old, o); }
+template <typename T> void atomic_notify_one(verif_atomic<T> *a) noexcept { a->notify_one(); }
+template <typename T> void atomic_notify_all(verif_atomic<T> *a) noexcept { a->notify_all(); }
 
 class verif_mutex {
 public:
